@@ -12,4 +12,8 @@ import (
 // "verif" it does nothing.
 func verifYield(context.Context, protocol.DocumentURI, uint64) func() { return verifNop }
 
+// verifStart is the scheduling point at the start of a diagnostics task; without the build
+// tag "verif" it does nothing.
+func verifStart(context.Context, protocol.DocumentURI, uint64) func() { return verifNop }
+
 func verifNop() {}
